@@ -8,7 +8,12 @@ Log == ndJsonDeserialize(IOEnv.TRACE_FILE)
 VARIABLE l
 
 \* logged member: [none |-> BOOLEAN, ok |-> BOOLEAN, v |-> value key or exception class]
-LoggedOuts(e) == [j \in 1..Len(e.members) |-> IF e.members[j].ok THEN "ok" ELSE "rej"]
+\* outcomes of the independently built member routines; the None member is not taken from the log:
+\* by the statement it accepts exactly None (a logged disagreement is reported as its own clause)
+LoggedOuts(e) == [j \in 1..Len(e.members) |->
+                    IF e.members[j].none THEN (IF e.xnone THEN "ok" ELSE "rej")
+                    ELSE IF e.members[j].ok THEN "ok" ELSE "rej"]
+NoneMemberOK(e) == \A j \in 1..Len(e.members) : e.members[j].none => (e.members[j].ok <=> e.xnone)
 LoggedHasNone(e) == \E j \in 1..Len(e.members) : e.members[j].none
 
 Want(e) ==
@@ -18,7 +23,8 @@ Want(e) ==
   ELSE [ok |-> TRUE, v |-> e.members[ref.by].v]
 
 Clause(e, w) ==
-  IF e.res = w THEN ""
+  IF ~NoneMemberOK(e) THEN "NoneMemberAcceptsExactlyNone"
+  ELSE IF e.res = w THEN ""
   ELSE IF e.xnone /\ LoggedHasNone(e) THEN "NoneHonoured"
   ELSE IF ~w.ok THEN (IF e.res.ok THEN "AcceptedThoughAllReject" ELSE "OnlyValueError")
   ELSE IF ~e.res.ok THEN "RaisedThoughMemberAccepts"
